@@ -18,6 +18,9 @@
 (*     coefficient sequence over Rat) is integrated by its antiderivative.  Nested binders need no    *)
 (*     special treatment.  An integrand with x in a denominator, a non-natural power, or under a     *)
 (*     function is not examinable: no logarithm or other transcendental value can arise.             *)
+(*   - a limit LIM x -> +-oo of a rational function of x: from the degrees and leading coefficients   *)
+(*     of numerator and denominator (extended value: finite | +oo | -oo, the infinite ones only at    *)
+(*     the top of an expression).  Limits at finite points are not examined.                         *)
 (* A verdict is only ever drawn from points where BOTH sides have st = 0.                             *)
 (*                                                                                                   *)
 (* EVALUATION-MODE DISCIPLINE (performance only).  TLC evaluates the function part of  f[i]  in a mode *)
@@ -160,6 +163,21 @@ PolyAt(c, t) == HornerP(c, t, 1)
 \* value at t of the antiderivative (with value 0 at 0)
 AntiAt(c, t) == QMul(t, PolyAt([i \in 1..Len(c) |-> QDiv(c[i], RInt(i))] \o <<>>, t))
 
+\* coefficient sequences over Rat, lowest degree first, no trailing zero (the zero polynomial is <<>>)
+RECURSIVE Trim(_)
+Trim(p) == IF Len(p) > 0 /\ p[Len(p)] = Z THEN Trim(SubSeq(p, 1, Len(p) - 1)) ELSE p
+At(p, i) == IF i >= 1 /\ i <= Len(p) THEN p[i] ELSE Z
+PAdd(p, q) == Trim([i \in 1..MaxN(Len(p), Len(q)) |-> QAdd(At(p, i), At(q, i))] \o <<>>)
+PScale(c, p) == Trim([i \in 1..Len(p) |-> QMul(c, p[i])] \o <<>>)
+PNeg(p) == PScale(<<-1, 1>>, p)
+PSub(p, q) == PAdd(p, PNeg(q))
+RECURSIVE ConvSum(_, _, _, _)
+ConvSum(p, q, k, i) == IF i > Len(p) THEN Z ELSE QAdd(QMul(p[i], At(q, k - i + 1)), ConvSum(p, q, k, i + 1))
+PMul(p, q) == IF Len(p) = 0 \/ Len(q) = 0 THEN <<>> ELSE Trim([k \in 1..(Len(p) + Len(q) - 1) |-> ConvSum(p, q, k, 1)] \o <<>>)
+RECURSIVE PPow(_, _)
+PPow(p, n) == IF n = 0 THEN <<One>> ELSE PMul(p, PPow(p, n - 1))
+PHasOvf(p) == \E i \in 1..Len(p) : p[i] = ROvf
+
 Ext(env, x, v) == [y \in (DOMAIN env) \cup {x} |-> IF y = x THEN v ELSE env[y]] @@ <<>>
 IsIntQ(q) == q # ROvf /\ q[2] = 1
 
@@ -268,6 +286,55 @@ EvIInt(e, env, dx) ==           \* the antiderivative that vanishes at 0, as a f
   LET c == Coeffs([i \in 1..(D + 1) |-> smp[i].v] \o <<>>) IN
   IF Len(c) = 0 THEN Res(0, Z, Z) ELSE Mk(AntiAt(c, env[x]), Z)
 
+(* ---- limits of rational functions at +oo / -oo: exact from degrees and leading coefficients ---- *)
+\* RatFun(e, x, env) = [st, n, d]: e as a quotient n / d of polynomials in x (coefficient sequences); subterms without x are
+\* evaluated with Ev.  No cancellation of common factors is needed for a limit at infinity.
+RF(st, n, d) == [st |-> st, n |-> n, d |-> d]
+RFBad(st) == RF(st, <<>>, <<One>>)
+RECURSIVE RatFun(_, _, _)
+RFPow(a, k) ==            \* a = [st, n, d] with st = 0
+  IF k >= 0 THEN RF(0, PPow(a.n, k), PPow(a.d, k))
+  ELSE IF Len(a.n) = 0 THEN RFBad(1) ELSE RF(0, PPow(a.d, -k), PPow(a.n, -k))
+RatFun(e, x, env) ==
+  IF ~Occ(e, x) THEN LET v == Ev(e, env, "") IN IF v.st # 0 THEN RFBad(v.st) ELSE RF(0, Trim(<<v.v>>), <<One>>)
+  ELSE CASE e[1] = "var" -> RF(0, <<Z, One>>, <<One>>)
+    [] e[1] = "neg" -> (LET g == RatFun(e[2], x, env) IN IF g.st # 0 THEN g ELSE RF(0, PNeg(g.n), g.d))
+    [] e[1] = "op" /\ e[2] \in {"+", "-", "*", "/"} ->
+         (LET a == RatFun(e[3], x, env)  b == RatFun(e[4], x, env)  st == IF a.st >= b.st THEN a.st ELSE b.st IN
+          IF st # 0 THEN RFBad(st)
+          ELSE IF e[2] = "+" THEN RF(0, PAdd(PMul(a.n, b.d), PMul(b.n, a.d)), PMul(a.d, b.d))
+          ELSE IF e[2] = "-" THEN RF(0, PSub(PMul(a.n, b.d), PMul(b.n, a.d)), PMul(a.d, b.d))
+          ELSE IF e[2] = "*" THEN RF(0, PMul(a.n, b.n), PMul(a.d, b.d))
+          ELSE IF Len(b.n) = 0 THEN RFBad(1) ELSE RF(0, PMul(a.n, b.d), PMul(a.d, b.n)))
+    [] e[1] = "op" /\ e[2] = "^" ->
+         (IF Occ(e[4], x) THEN RFBad(2)
+          ELSE LET k == Ev(e[4], env, "")  c == RatFun(e[3], x, env) IN
+               IF k.st # 0 THEN RFBad(k.st) ELSE IF c.st # 0 THEN c
+               ELSE IF ~IsIntQ(k.v) \/ k.v[1] > 6 \/ k.v[1] < -6 THEN RFBad(2) ELSE RFPow(c, k.v[1]))
+    [] OTHER -> RFBad(2)
+\* x -> -x
+PFlip(p) == [i \in 1..Len(p) |-> IF i % 2 = 0 THEN QNeg(p[i]) ELSE p[i]] \o <<>>
+\* extended value [st, v, inf]: inf = 0 finite value v; inf = 1 / -1 : +oo / -oo
+XR(st, v, inf) == [st |-> st, v |-> v, inf |-> inf]
+XBad(st) == XR(st, Z, 0)
+SgnQ(q) == IF q[1] > 0 THEN 1 ELSE IF q[1] < 0 THEN -1 ELSE 0
+LimAtInf(e, env, s) ==           \* e = <<"lim", x, L, body, drt>>, s = 1 for x -> oo, -1 for x -> -oo
+  LET f == RatFun(e[4], e[2], env) IN
+  IF f.st # 0 THEN XBad(f.st)
+  ELSE LET n == IF s = 1 THEN f.n ELSE PFlip(f.n)  d == IF s = 1 THEN f.d ELSE PFlip(f.d) IN
+       IF Len(n) > MaxDeg + 2 \/ Len(d) > MaxDeg + 2 \/ PHasOvf(n) \/ PHasOvf(d) THEN XBad(2)
+       ELSE IF Len(d) = 0 THEN XBad(1)
+       ELSE IF Len(n) < Len(d) THEN XR(0, Z, 0)
+       ELSE IF Len(n) = Len(d) THEN LET q == QDiv(n[Len(n)], d[Len(d)]) IN IF q = ROvf THEN XBad(2) ELSE XR(0, q, 0)
+       ELSE XR(0, Z, SgnQ(n[Len(n)]) * SgnQ(d[Len(d)]))
+\* the point a limit is taken at: 1 / -1 for oo / -oo, 0 otherwise
+RECURSIVE InfSign(_)
+InfSign(l) == CASE l[1] = "inf" -> l[2] [] l[1] = "neg" -> -InfSign(l[2]) [] OTHER -> 0
+LimVal(e, env) ==
+  LET s == InfSign(e[3]) IN
+  IF s = 0 THEN XBad(2)                         \* limits at finite points are not examined
+  ELSE LimAtInf(e, env, s)
+
 Ev(e, env, dx) ==
   CASE e[1] = "op" -> EvOp(e, env, dx)
     [] e[1] = "const" -> IF e[3] > 0 THEN Res(0, IF e[3] = 1 THEN <<e[2], 1>> ELSE RNorm(e[2], e[3]), Z) ELSE Unk
@@ -280,6 +347,8 @@ Ev(e, env, dx) ==
                          ELSE LET a == Ev(e[3], env, e[2]) IN IF a.st # 0 THEN a ELSE Res(0, a.d, Z)
     [] e[1] = "iint" -> EvIInt(e, env, dx)
     [] e[1] = "skolem" -> Res(0, Z, Z)             \* an arbitrary constant; only used in the "up to a constant" comparison
+    [] e[1] = "lim" -> IF dx # "" /\ Occ(e, dx) THEN Unk        \* a finite limit is a value; an infinite one only at the top (XVal)
+                       ELSE LET t == LimVal(e, env) IN IF t.st # 0 THEN Bad(t.st) ELSE IF t.inf # 0 THEN Unk ELSE Res(0, t.v, Z)
     [] e[1] = "fun" -> IF e[2] = "abs" /\ Len(e[3]) = 1
                        THEN LET a == Ev(e[3][1], env, dx) IN
                             IF a.st # 0 THEN a ELSE IF dx # "" /\ a.v[1] = 0 THEN Unk
@@ -288,6 +357,13 @@ Ev(e, env, dx) ==
     [] OTHER -> Unk
 
 Val(e, env) == Ev(e, env, "")
+\* extended value of a whole expression: +oo / -oo only at the top, possibly under a negation
+RECURSIVE XVal(_, _)
+XVal(e, env) ==
+  CASE e[1] = "inf" -> XR(0, Z, IF e[2] > 0 THEN 1 ELSE -1)
+    [] e[1] = "neg" -> LET a == XVal(e[2], env) IN IF a.st # 0 THEN a ELSE XR(0, QNeg(a.v), -a.inf)
+    [] e[1] = "lim" -> LimVal(e, env)
+    [] OTHER -> LET a == Ev(e, env, "") IN XR(a.st, a.v, 0)
 
 (* ------------------------------------------------------------------------------------------------ *)
 (* Conditions and grids.                                                                             *)
@@ -332,8 +408,9 @@ SameValue(e, r, conds) ==
   LET pts == [vs -> Grid(Cardinality(vs))]
       adm == {env \in pts : \A i \in 1..Len(conds) : CondHolds(conds[i], env)}
       \* [both defined, difference] at one point
-      Diff(env) == LET a == Val(e, env)  b == Val(r, env) IN
+      Diff(env) == LET a == XVal(e, env)  b == XVal(r, env) IN
                    IF a.st # 0 \/ b.st # 0 THEN [ok |-> FALSE, d |-> Z]
+                   ELSE IF a.inf # 0 \/ b.inf # 0 THEN [ok |-> TRUE, d |-> IF a.inf = b.inf THEN Z ELSE One]     \* +oo / -oo / finite
                    ELSE LET d == QSub(a.v, b.v) IN IF d = ROvf THEN [ok |-> FALSE, d |-> Z] ELSE [ok |-> TRUE, d |-> d] IN
   IF ~upto THEN LET codes == {Diff(env) : env \in adm} IN              \* every point is evaluated once
                 [fails |-> \E c \in codes : c.ok /\ c.d # Z, cmp |-> \E c \in codes : c.ok]
